@@ -296,18 +296,42 @@ func (c *Cond) Broadcast() {
 	vs.Event("Cond.Broadcast", unsafe.Pointer(c), false, true)
 }
 
-// Pool mirrors sync.Pool without pooling.
+// Pool mirrors sync.Pool: Get hands back the most recently Put item if there
+// is one (the adversarial but legal behaviour), else New().
 type Pool struct {
-	New func() interface{}
+	New  func() interface{}
+	free []interface{}
+	n    sync.Pool
 }
 
 func (p *Pool) Get() interface{} {
+	if !vs.Active() {
+		p.n.New = p.New
+		return p.n.Get()
+	}
+	vs.Point("Pool.Get", unsafe.Pointer(p))
+	if n := len(p.free); n > 0 {
+		x := p.free[n-1]
+		p.free = p.free[:n-1]
+		return x
+	}
 	if p.New != nil {
 		return p.New()
 	}
 	return nil
 }
-func (p *Pool) Put(interface{}) {}
+
+func (p *Pool) Put(x interface{}) {
+	if !vs.Active() {
+		p.n.Put(x)
+		return
+	}
+	vs.Point("Pool.Put", unsafe.Pointer(p))
+	p.free = append(p.free, x)
+	// Using an object after putting it back is the classic Pool bug and a data
+	// race that the scheduler could not otherwise interleave: yield once more.
+	vs.Point("Pool.Put(done)", unsafe.Pointer(p))
+}
 
 // OnceFunc mirrors sync.OnceFunc.
 func OnceFunc(f func()) func() {
